@@ -245,6 +245,72 @@ fn sweep(profile: Profile, n: usize, sh: &util::Shard) -> Report {
     rep
 }
 
+
+// ------------------------------------------------------------------ edited programs
+
+/// Scoping-oriented fragments on top of the shared edit alphabet.
+const SCOPE_ALPHABET: &[&str] = &[
+    "q", "v", "w", "f", "std", "local q = 1 ;", "local q = q ;", "local v = 1 , v = 2 ;", ", q = 1", "for q in [ 1 ]", "for q in [ q ]", "function ( q , q )", "function ( q = w , w = 1 )",
+    "( 1 , x = 2 )", "( x = 2 , 1 )", ", a : 9", ", local a = 1", "import \"f\"", "import \"f\" + \"g\"", "importstr ||| \n a \n |||", "[ self ]", "[ super . a ]", "[ $ ]", "{ [ q ] : 1 }",
+];
+
+/// Every single edit of the seed programs that the parser accepts: the model's static rules
+/// and `load_source` must agree (accept / reject and the admissible kinds).
+fn edit_sweep(two: bool, sh: &util::Shard) -> Report {
+    let mut rep = Report::new();
+    let mut n = 0u64;
+    let alphabet: Vec<&str> = crate::c02::SEM_ALPHABET.iter().chain(SCOPE_ALPHABET.iter()).copied().collect();
+    let seeds: Vec<&str> = crate::c02::SEM_SEEDS.iter().chain(crate::c01::EDIT_SEEDS.iter()).copied().collect();
+    for seed in seeds {
+        let cases = crate::c01::edit_cases_with(seed, two, &alphabet);
+        let base = n;
+        n += cases.len() as u64;
+        let mut start = 0usize;
+        while start < cases.len() {
+            let arena = Arena::new();
+            let mut p = Program::new(&arena);
+            let mut next = cases.len();
+            for (ci, src) in cases.iter().enumerate().skip(start) {
+                let id = base + ci as u64 + 1;
+                if !sh.mine(id) || !sh.begin_case(id, &|| src.clone()) {
+                    continue;
+                }
+                rep.states += 1;
+                let e = match util::catch(|| crate::c15::impl_parse(src.as_bytes())) {
+                    Ok(crate::c15::Parsed::Tree(e, _)) => crate::c15::plain_numbers(&syntax::strip_parens(&e)),
+                    Ok(_) => {
+                        rep.outcome("edit:not-a-program");
+                        continue;
+                    }
+                    Err(m) => {
+                        rep.violation(format!("C09/panic/{}", util::panic_site(&m)), format!("panic while parsing `{src}`: {m}"), json!({"type":"static","source":src}));
+                        continue;
+                    }
+                };
+                let r = util::catch(|| {
+                    let mut local = Report::new();
+                    judge(&mut p, &e, "edited program", &mut local, true);
+                    local
+                });
+                match r {
+                    Ok(local) => rep.merge(local),
+                    Err(m) => {
+                        rep.violation(
+                            format!("C09/panic/{}", util::panic_site(&m)),
+                            format!("panic while loading/evaluating `{src}`: {m}"),
+                            json!({"type":"static","source":src}),
+                        );
+                        next = ci + 1;
+                        break;
+                    }
+                }
+            }
+            start = next;
+        }
+    }
+    rep
+}
+
 pub fn run(ctx: &Ctx) -> i32 {
     let plan: Vec<(Profile, usize)> = if ctx.quick() {
         vec![(corpus::FULL, 3), (corpus::OBJECTS, 3), (corpus::FUNCTIONS, 3), (corpus::COMPS, 3)]
@@ -267,11 +333,19 @@ pub fn run(ctx: &Ctx) -> i32 {
             total.merge(r);
         }
     }
+    {
+        let cfg = util::ForkCfg { threads: ctx.threads, mem_bytes: 3 << 30, case_timeout_s: 60, died_signature: "C09/abort".into(), resource_is_violation: false };
+        let before = total.evaluations;
+        let r = util::par_forked(&cfg, 256, |sh| edit_sweep(!ctx.quick(), sh));
+        total.extra.insert("edited_programs".into(), json!(r.states));
+        total.merge(r);
+        total.extra.insert("edited_programs_judged".into(), json!(total.evaluations - before));
+    }
     util::finish(
         ctx,
         LevelInfo {
             level: "model_checking",
-            rule: "every corpus program (fault-free) and, for every node position of it, every one of the listed fault / look-alike expressions substituted at that position; model = the specification's static rules; distinct+nontrivial = distinct (set of model errors, syntactic feature set)".into(),
+            rule: "every single edit (token or fragment insertion, deletion, replacement, adjacent swap; thorough: plus a second deletion) of the seed programs that the parser accepts; every corpus program (fault-free) and, for every node position of it, every one of the listed fault / look-alike expressions substituted at that position; model = the specification's static rules; distinct+nontrivial = distinct (set of model errors, syntactic feature set)".into(),
             assumptions: vec!["syntax::static_check implements the specification's static rules".into(), "when several static errors are present any of them may be reported".into()],
         },
         total,
